@@ -69,6 +69,10 @@ def automata_corpus():
     # state names coincide with alphabet symbols (what from_string produces), hand-made
     c["states_are_symbols"] = A(frozenset(["a", "é", "x"]), {"x": F(1)}, {"é": w[0]},
                                 [("x", "a", "a", w[1]), ("a", "é", "é", w[2]), ("é", "a", "a", w[3])])
+    # a state literally named '' - the name from_string gives its initial state, and the spelling of EPSILON - with arcs leading back
+    # into it (seeded change C17-8)
+    c["state_named_empty_string"] = A(frozenset(["", "a", "aé"]), {"": w[0]}, {"aé": w[1]},
+                                      [("", "a", "a", w[2]), ("a", "é", "aé", w[3]), ("aé", EPS, "", w[4]), ("a", "€", "", w[5])])
     c["one_state_is_symbol"] = A(frozenset(["p", "b"]), {"p": F(1)}, {"b": w[0]}, [("p", "a", "b", w[1]), ("b", "b", "p", w[2])])
     # integer state names that coincide with UTF-8 byte values of the labels (only visible after to_bytes)
     c["int_states_eq_bytes"] = A(frozenset([97, 195, 169]), {97: F(1)}, {169: w[0]},
